@@ -128,6 +128,10 @@ bool thread_enabled(Thread* t)
 
 static void block(Thread* t, int bk, const void* obj, int64_t deadline, bool untimed_wait)
 {
+    if (untimed_wait && t->forbid_obj && t->forbid_obj == obj)
+        failf(t->forbid_cls ? t->forbid_cls : "blocked", "thread %d waits without a time limit on "
+              "the wrapper's own lock (object #%d) inside a try / timed acquisition", t->id,
+              obj_ordinal(obj));
     if (untimed_wait && t->forbid_block)
         failf(t->forbid_cls ? t->forbid_cls : "blocked", "thread %d blocks on object #%d (%s) "
               "in a call that must not wait", t->id, obj_ordinal(obj),
@@ -155,6 +159,7 @@ static void mutex_acquire(Thread* t, SyncObj* o)
     o->owner = t->id;
     vc_join(t->vc, o->clock);
     t->held_excl++;
+    t->last_lock = o->key;
 }
 static void mutex_release(Thread* t, SyncObj* o)
 {
@@ -238,6 +243,7 @@ static int sim_rw_rdlock(pthread_rwlock_t* l, int ek, int64_t deadline, bool try
             o->rd[t->id]++;
             vc_join(t->vc, o->clock);
             t->held_shared++;
+            t->last_lock = o->key;
             event_result(0);
             return 0;
         }
@@ -276,6 +282,7 @@ static int sim_rw_wrlock(pthread_rwlock_t* l, int ek, int64_t deadline, bool try
             vc_join(t->vc, o->clock);
             vc_join(t->vc, o->rclock);
             t->held_excl++;
+            t->last_lock = o->key;
             event_result(0);
             return 0;
         }
